@@ -23,7 +23,7 @@ ASSUMPTIONS = ['a CRLF pair is one line break (leftmost pairs first), then LFCR 
                'case-sensitive configurations range over all of Unicode', 'expected strings are concrete', 'lone surrogates excluded']
 BOUNDS = {'quick': 'all strings of length <= 4 x 16 flag combinations; accept_any: length <= 4, min_length in 0..5, min_words in 0..3; validation: length <= 4 over a 12-character alphabet, 8 patterns',
           'thorough': 'all strings of length <= 6 (path budget per flag combination)'}
-OUTSIDE = ['strings longer than the bound', 'non-ASCII characters changed by lower() in case-insensitive mode', 'regex features beyond the translated subset']
+OUTSIDE = ['case folding of cased non-ASCII letters beyond the 12 listed pairs (the symbolic alphabet of the case-insensitive harnesses is ASCII plus caseless characters)', 'strings longer than the bound', 'non-ASCII characters changed by lower() in case-insensitive mode', 'regex features beyond the translated subset']
 DEADLINE = {'quick': 170, 'thorough': 2400}
 FUNCS = ['StringGrader.clean_input', 'StringGrader.check_response', 'StringGrader.construct_message', 'StringGrader.__call__', 'ItemGrader.check', 'AbstractGrader.__call__']
 STUBS = ['stringgrader.str -> identity on symbolic strings', 'stringgrader.re -> ReShim (re.match / re.sub on symbolic strings through the validated regex translator)', 'voluptuous isinstance shadow']
@@ -145,6 +145,27 @@ def h_inferred_expect(E, st, sa, cl, N):
     matches = _eq_chars(want, norm(list(expect), True, st, sa, cl))
     E.check('verdict-iff-identical-after-normalisation', siff(r['ok'] is True, matches))
     return [len(_as_chars(s)), r['ok']]
+
+
+NONASCII_CASE = [('Émile', 'émile'), ('Émile', 'ÉMILE'), ('ωmega', 'ΩMEGA'), ('Жук', 'жУК'), ('straße', 'STRAßE'), ('ǆ', 'Ǆ'), ('naïve café', 'NAÏVE CAFÉ'), ('Ångström', 'ångström'),
+                 ('ÇA', 'ça'), ('ñandú', 'ÑANDÚ'), ('Œuvre', 'œuvre'), ('ÿ', 'Ÿ')]
+
+
+def h_nonascii_case(E, idx):
+    """concrete companion for letters outside ASCII (the symbolic case mapping covers ASCII and caseless characters only): with case_sensitive off two
+    spellings that differ in case only - in any alphabet - match; with it on they do not"""
+    from mitxgraders import StringGrader
+    a, b = NONASCII_CASE[idx]
+    swap = E.fork_bool('swap')
+    expect, sub = (b, a) if swap else (a, b)
+    accept = E.fork_bool('through_validation_pattern')
+    if accept:
+        g = StringGrader(answers=expect, case_sensitive=False, validation_pattern=expect.lower().replace(' ', ' ') + '|zola')
+    else:
+        g = StringGrader(answers=expect, case_sensitive=False)
+    E.check('case-insensitive-match-in-any-alphabet', g(None, sub)['ok'] is True and g(None, ' ' + expect + '\t')['ok'] is True)
+    E.check('case-sensitive-grader-distinguishes', StringGrader(answers=expect, case_sensitive=True)(None, sub)['ok'] is False)
+    return 'ok'
 
 
 def _words(chars):
@@ -342,6 +363,8 @@ def harnesses(tier):
         add(h_accept_any, 'accept', dict(mode=mode, explain=None, N=3, strip_all=False, clean_spaces=False), 'all Unicode strings, symbolic minimums, clean_spaces off')
     for st, sa, cl in itertools.product((True, False), repeat=3):
         add(h_inferred_expect, 'inferred_expect', dict(strip=st, strip_all=sa, clean_spaces=cl, N=4 if T else 3), '8 padded expect values x all strings of length <= 3 (quick) / 4 over {a, b, space, tab}')
+    for i in range(len(NONASCII_CASE)):
+        add(h_nonascii_case, 'nonascii_case', dict(i=i), '%s / %s' % NONASCII_CASE[i], validate=False)
     names = sorted(SEQ_GRADERS)
     for a in names:
         for b in names:
